@@ -2159,4 +2159,104 @@ Section Sim.
       apply Hlit.
   Qed.
 
+  (* ---------- the decoding loop started in the fast loop, partial mode ---------- *)
+  Lemma run_sim_part_fast : forall f (bs : list Z) ss (last : list Z), parse_seqs f bs = Some (ss, last) ->
+    forall rout rout' s fuel (fast : bool),
+    partial = true ->
+    apply_seqs rout ss = Some rout' -> end_ok ss last = true ->
+    bytes bs -> src_at srcm (ip s) bs -> 0 <= ip s -> ip s + Z.of_nat (length bs) <= iend ->
+    (ip s + Z.of_nat (length bs) = iend \/ oend <= op s + total_len ss last) ->
+    out_at (vget (dm s)) (op s) rout -> Z.of_nat (length rout) <= op s - lowPrefix -> 0 <= op s -> op s <= oend ->
+    (fast = true -> op s <= oend - 64) ->
+    (length bs < fuel)%nat ->
+    exists s', run partial dict srcm iend oend lowPrefix rlow dictm dictSize fuel fast s
+               = (Z.min oend (op s + total_len ss last), s')
+               /\ out_at (vget (dm s')) (Z.min oend (op s + total_len ss last))
+                    (skipn (Z.to_nat (op s + total_len ss last - Z.min oend (op s + total_len ss last))) (rev last ++ rout')).
+  Proof.
+    induction f as [|f IH]; intros bs ss last H rout rout' s fuel fast Hp Happ Hend Hb Hs Hip Hie Hex O Hlen Hop Hoe Hfast Hfuel.
+    { discriminate. }
+    destruct fast.
+    2:{ eapply run_sim_part; eauto. }
+    specialize (Hfast eq_refl).
+    rewrite parse_seqs_S in H.
+    destruct bs as [|tok r]; [discriminate|].
+    destruct (read_len (tok / 16) r) as [[ll r1]|] eqn:E1; [|discriminate].
+    destruct (take (Z.to_nat ll) r1) as [[lits r2]|] eqn:E2; [|discriminate].
+    destruct fuel as [|fuel]; [lia|].
+    cbn [run].
+    assert (Ell : ll = Z.of_nat (length lits)).
+    { destruct (take_spec _ _ _ _ E2) as [_ Hl]. destruct (bytes_cons _ _ Hb) as [Htok Hbr].
+      destruct (nibbles tok Htok) as [Hn1 _].
+      destruct (src_at_cons _ _ _ _ Hs) as [_ Hsr].
+      destruct (read_len_suffix _ _ _ _ _ Hn1 E1 Hbr Hsr) as (_ & Hll & _). unfold byte in *. lia. }
+    destruct r2 as [|o1 [|o2 r3]]; [| discriminate |].
+    - assert (Hss : ss = []) by congruence. assert (Hla : lits = last) by congruence. clear H. subst ss last.
+      cbn [apply_seqs] in Happ. assert (Hr' : rout = rout') by congruence. subst rout'.
+      cbn [total_len fold_right] in *. rewrite <- Ell in *.
+      pose proof (fast_top_last_part s tok r ll r1 lits rout Hp Hb Hs Hip Hie Hex E1 E2 O Hop Hfast) as HL.
+      destruct (fast_top partial dict srcm iend oend lowPrefix rlow dictm dictSize s) as [f' s'|s'|s'];
+        cbn [is_done] in HL; try (exfalso; exact HL).
+      destruct HL as [H1 H2].
+      exists s'. replace (Z.min oend (op s + ll)) with (op s + Z.min ll (oend - op s)) by lia.
+      rewrite <- H1. split; [reflexivity|].
+      replace (op s + ll - op s') with (ll - Z.min ll (oend - op s)) by lia. exact H2.
+    - destruct (read_len (tok mod 16) r3) as [[ml r4]|] eqn:E3; [|discriminate].
+      destruct (parse_seqs f r4) as [[ss' last']|] eqn:E4; [|discriminate].
+      assert (Hss : mkSeq lits (o1 + 256 * o2) (ml + 4) :: ss' = ss) by congruence.
+      assert (Hlast : last' = last) by congruence. clear H. subst ss last.
+      cbn [apply_seqs] in Happ.
+      destruct (apply_seq rout (mkSeq lits (o1 + 256 * o2) (ml + 4))) as [rout1|] eqn:Eapp; [|discriminate].
+      pose proof (apply_seqs_mlen _ _ _ Happ) as Fml.
+      assert (Hml0 : 0 <= ml + 4).
+      { unfold apply_seq in Eapp. cbn [s_off s_mlen] in Eapp. destruct (off_ok (o1 + 256 * o2) && (4 <=? ml + 4)) eqn:E; [lia|discriminate]. }
+      destruct (end_room ss' (mkSeq lits (o1 + 256 * o2) (ml + 4)) last' Hend) as (H5 & H12 & Hend').
+      { constructor; [cbn [s_mlen]; lia | exact Fml]. }
+      pose proof (total_len_ge ss' last' Fml) as Htl.
+      pose proof (parse_seqs_len _ _ _ _ E4) as Hr4.
+      cbn [total_len fold_right s_lits s_mlen] in *. fold (total_len ss' last') in *.
+      rewrite <- Ell in *.
+      assert (Hlen1 : length rout1 = (length rout + length lits + Z.to_nat (ml + 4))%nat).
+      { unfold apply_seq in Eapp. cbn [s_lits s_off s_mlen] in Eapp.
+        destruct (off_ok (o1 + 256 * o2) && (4 <=? ml + 4)); [|discriminate].
+        apply copy_match_length in Eapp. rewrite app_length, rev_length in Eapp. unfold byte in *. lia. }
+      assert (HS : is_cod_any (fast_top partial dict srcm iend oend lowPrefix rlow dictm dictSize s)
+                 (part_post (op s) (ll + (ml + 4)) rout1
+                    (fun s' => ip s' + Z.of_nat (length r4) = ip s + Z.of_nat (length (tok :: r)) /\
+                               src_at srcm (ip s') r4 /\ bytes r4))).
+      { apply (fast_top_seq_part s tok r ll r1 lits o1 o2 r3 ml r4 rout rout1); try assumption; unfold byte in *; try lia. }
+      assert (Hshr : (length r4 + 2 <= length r)%nat).
+      { pose proof (read_len_shorter _ _ _ _ E1). pose proof (read_len_shorter _ _ _ _ E3).
+        destruct (take_spec _ _ _ _ E2) as [Er1 _]. unfold byte in *.
+        assert (length r1 = (length lits + S (S (length r3)))%nat) by (rewrite Er1, app_length; reflexivity). lia. }
+      destruct (apply_seqs_suffix _ _ _ Happ) as (X & HX & HXl).
+      destruct (fast_top partial dict srcm iend oend lowPrefix rlow dictm dictSize s) as [f' s'|s'|s'];
+        cbn [is_cod_any] in HS; try (exfalso; exact HS); unfold part_post in HS.
+      + destruct HS as ((Ho' & O' & Hmin & Hi' & Hs' & Hb') & Hf').
+        rewrite Hmin in *. replace (Z.to_nat (ll + (ml + 4) - (ll + (ml + 4)))) with 0%nat in O' by lia. cbn [skipn] in O'.
+        cbn [length] in Hi', Hie, Hfuel, Hex.
+        destruct (IH r4 ss' last' E4 rout1 rout' s' fuel f' Hp Happ Hend' Hb' Hs') as (s'' & Hrun & Hout).
+        * unfold byte in *; lia.
+        * unfold byte in *; lia.
+        * unfold byte in *; lia.
+        * exact O'.
+        * unfold byte in *; lia.
+        * unfold byte in *; lia.
+        * unfold byte in *; lia.
+        * exact Hf'.
+        * unfold byte in *; lia.
+        * exists s''. rewrite Hrun.
+          replace (op s' + total_len ss' last') with (op s + (ll + (ml + 4) + total_len ss' last')) in * by lia.
+          split; [reflexivity | exact Hout].
+      + destruct HS as (Ho' & O' & Hend2).
+        exists s'.
+        replace (Z.min oend (op s + (ll + (ml + 4) + total_len ss' last'))) with (op s') by lia.
+        split; [reflexivity|].
+        rewrite HX. rewrite app_assoc.
+        replace (Z.to_nat (op s + (ll + (ml + 4) + total_len ss' last') - op s'))
+          with (Z.to_nat (total_len ss' last') + Z.to_nat (ll + (ml + 4) - Z.min (ll + (ml + 4)) (oend - op s)))%nat by lia.
+        rewrite skipn_app_exact; [exact O'|].
+        rewrite app_length, rev_length. rewrite total_len_last. unfold byte in *. lia.
+  Qed.
+
 End Sim.
